@@ -201,7 +201,7 @@ func TestVerif_C12(t *testing.T) {
 	for _, v := range []string{"late", "duplicate", "wrong-seq", "wrong-type"} {
 		scens = append(scens, scen{"hb-odd", 2, 0, v})
 	}
-	scens = append(scens, scen{"peer-hb", 2, 0, ""}, scen{"peer-hb", 1, 0, "before-assoc"})
+	scens = append(scens, scen{"peer-hb", 2, 0, ""}, scen{"peer-hb", 1, 0, "before-assoc"}, scen{"peer-hb", 3, 0, "re-setup"})
 	for f := 0; f < 4; f++ {
 		scens = append(scens, scen{"features", f, 0, "up"}, scen{"features", f, 0, "down"})
 	}
@@ -495,6 +495,21 @@ func c12PeerHB(res *vResult, variant string, respTO, hbInt time.Duration, desc m
 	if p.request(vMarshal(message.NewAssociationSetupRequest(1, ie.NewNodeID(p.nodeID, "", ""), ie.NewRecoveryTimeStamp(p.ts))), 1, 3*time.Second) == nil {
 		res.inconclusive("association setup unanswered")
 		return
+	}
+	if variant == "re-setup" {
+		// the peer sets the association up again, with a newer, an equal and an older Recovery Time Stamp of its own
+		// (a restarted or merely repeating control plane); the agent's stamp stays what it is. A heartbeat after each.
+		for i, dt := range []time.Duration{time.Hour, time.Hour, -2 * time.Hour, 3 * time.Hour} {
+			sq := uint32(20 + i)
+			if p.request(vMarshal(message.NewAssociationSetupRequest(sq, ie.NewNodeID(p.nodeID, "", ""), ie.NewRecoveryTimeStamp(p.ts.Add(dt)))), sq, 3*time.Second) == nil {
+				res.violate("C12.R9", "re-setup-unanswered", fmt.Sprintf("the %d. repeated Association Setup Request (peer stamp %+v) was not answered", i+1, dt), w)
+			}
+			seq++
+			if p.request(hb(seq), seq, 2*time.Second) == nil {
+				res.violate("C12.R6", "peer-heartbeat-unanswered", "a Heartbeat Request after a repeated Association Setup was not answered", w)
+			}
+			res.event("repeated_association_setups", 1)
+		}
 	}
 	assocAt := time.Now()
 	// phase 1: the peer sends heartbeats every interval/3 for 4 intervals: the agent's own heartbeat is postponed each time
